@@ -31,8 +31,12 @@ def run_property(prop, tier, seed, model=None, quiet=False, write=True):
     known_keys = {k['key']: k for k in known if k.get('status') == 'known'}
     viol = []
     lines = []
+    seen = set()
     for r in results:
         for f in r.findings:
+            if f.key() in seen:
+                continue
+            seen.add(f.key())
             if f.key() in known_keys:
                 lines.append('KNOWN-FINDING: property=%s %s (%s)' % (
                     prop, known_keys[f.key()].get('what', f.msg), f.key()))
